@@ -138,14 +138,50 @@ def _test_text(e, r):
     return k if v else 'not (%s)' % k
 
 
+_CTX = []          # (project, func) of the table being rendered, for loops nested in branches
+_DEPTH = [0]
+
+
 def _loop_text(q, n, r):
-    """canonical text of a loop that the summary does not enter: kind, test / iterable, and the statements of the body"""
+    """canonical text of a loop the summary does not enter: the decision table of one generic iteration (loop-carried
+    locals symbolic), rendered recursively; falls back to the statements of the body when that is not possible"""
     body = [st for st in n.body if not isinstance(st, ast.Pass)]
-    btxt = ' ; '.join(src_of(st).replace('\n', ' ') for st in body) if body else 'pass'
+    btxt = None
+    if body and _CTX and _DEPTH[0] < 2:
+        project, func = _CTX[-1]
+        try:
+            _DEPTH[0] += 1
+            carried = sorted({x.id for st in n.body for x in ast.walk(st) if isinstance(x, ast.Name) and isinstance(x.ctx, ast.Store)})
+            env = {}
+            for k, v in q.env.items():
+                env[k] = v
+            for c in carried:
+                env[c] = ast.Name(id='_acc_' + c, ctx=ast.Load())
+            stmts = list(n.body)
+            if isinstance(n, ast.While):
+                stmts = [ast.If(test=ast.UnaryOp(op=ast.Not(), operand=n.test), body=[ast.Break()], orelse=[])] + stmts
+            else:
+                for t in ast.walk(n.target):
+                    if isinstance(t, ast.Name):
+                        env[t.id] = ast.Name(id='_elem_' + t.id, ctx=ast.Load())
+            paths = sympath.feasible(sympath.block_summaries(project, func, stmts, env=env, ncall0=1000 * _DEPTH[0]))
+            cs = _cases_of_paths(paths)
+            parts = []
+            for c in cs:
+                tail = _env_suffix(c, carried) if c.exit in ('end', 'continue', 'break') else ''
+                o = c.outcome() if c.exit not in ('continue', 'break') else ' ; '.join(list(_sorted_stores(c.effects)) + [c.exit])
+                parts.append('%s -> %s%s' % (c.cond_str(), o, (' || ' + tail) if tail else ''))
+            btxt = '{ ' + ' | '.join(sorted(parts)) + ' }'
+        except sympath.Unsupported:
+            btxt = None
+        finally:
+            _DEPTH[0] -= 1
+    if btxt is None:
+        btxt = ' ; '.join(src_of(st).replace('\n', ' ') for st in body) if body else 'pass'
     if isinstance(n, ast.While):
-        return 'loop while %s do %s' % (_test_text(n.test, lambda e: src_of(e)), btxt)
+        return 'loop while %s do %s' % (_test_text(n.test, lambda e: src_of(e)) if btxt == 'pass' or not btxt.startswith('{') else '..', btxt)
     if isinstance(n, ast.For):
-        return 'loop for %s in %s do %s' % (src_of(n.target), src_of(n.iter), btxt)
+        return 'loop for each of %s do %s' % (r(n.iter), btxt)
     return 'block ' + type(n).__name__
 
 
@@ -185,6 +221,8 @@ def _render(q):
         def visit_Name(self, node):
             if node.id in symno:
                 return ast.Name(id='__%d' % symno[node.id], ctx=ast.Load())
+            if node.id.startswith('_c') and node.id[2:].isdigit():
+                return ast.Name(id='outer_%d' % (int(node.id[2:]) % 1000), ctx=ast.Load())
             if node.id in q.snaps and self.depth > 0:
                 nm, val, at = q.snaps[node.id]
                 t = before(at)
@@ -223,6 +261,14 @@ def _render(q):
 
 
 def cases(project, func, pure=(), inline=False, select=None, unroll=False):
+    _CTX.append((project, func))
+    try:
+        return _cases(project, func, pure, inline, select, unroll)
+    finally:
+        _CTX.pop()
+
+
+def _cases(project, func, pure=(), inline=False, select=None, unroll=False):
     paths = sympath.feasible(sympath.summaries(project, func, inline=inline, pure=pure, select=select, unroll=unroll))
     out = []
     for q in paths:
@@ -278,3 +324,196 @@ def check(project, func, rows, **kw):
         extra = [c for i, c in enumerate(cs) if i not in covered]
         return 'unknown', 'paths outside the specified cases: ' + ' | '.join('%s -> %s' % (c.cond_str(), c.outcome()) for c in extra[:3])
     return 'ok', len(cs)
+
+
+# ---------------------------------------------------------------------- segmented tables (functions with top-level loops)
+def _cases_of_paths(paths):
+    out = []
+    for q in paths:
+        rconds, eff, ret = _render(q)
+        conds = {}
+        bad = False
+        for e, pol in rconds:
+            k, v = canon_atom(src_of(e), pol)
+            if conds.get(k, v) != v:
+                bad = True
+            conds[k] = v
+        if not bad:
+            out.append(Case(conds, ret, tuple(eff), q.exit, q))
+    return out
+
+
+def _env_suffix(case, names, order=None):
+    """values of the loop-carried locals at the end of a segment path, as a canonical string (ordered by canonical name)"""
+    q = case.path
+    parts = []
+    for n in sorted(names, key=(lambda x: (order.index(x) if order and x in order else 999, x))):
+        if n in q.env:
+            v = q.resolve(q.env[n])
+            parts.append('%s := %s' % (n, canon(v)))
+    return ' ; '.join(parts)
+
+
+def segments(project, func, inline=True, select=None):
+    """[(label, [Case], carried names)]: the top-level statement list of the normal form cut at its top-level loops:
+    'pre' (before the first loop), 'iter<k>' (one generic iteration of loop k; the locals the loop assigns are symbolic
+    `_acc_x`, loop-invariant locals keep the expressions they were bound to before the loop; the loop test is evaluated
+    first), 'post<k>' (statements after loop k, the locals loops assigned symbolic as `_fin_x`)"""
+    from . import norm
+    node = norm.nf(project, func, select=select) if select is not None else norm.nf(project, func, inline=inline)
+    body = [st for st in node.body if not (isinstance(st, ast.Expr) and isinstance(st.value, ast.Constant))]
+    out = []
+    cut = [i for i, st in enumerate(body) if isinstance(st, (ast.For, ast.While))]
+
+    def names_in(stmts):
+        return {n.id for st in stmts for n in ast.walk(st) if isinstance(n, ast.Name) and isinstance(n.ctx, ast.Store)}
+    start = 0
+    env = {}
+    k = 0
+    looped = set()
+    for ci in cut + [None]:
+        blk = body[start:ci] if ci is not None else body[start:]
+        label = 'pre' if k == 0 else 'post%d' % k
+        paths = sympath.feasible(sympath.block_summaries(project, func, blk, env=dict(env), ncall0=100 * k))
+        cs = _cases_of_paths(paths)
+        out.append((label, cs, sorted(looped & names_in(blk))))
+        if ci is None:
+            break
+        # bindings that every path falling through to the loop agrees on (resolved: calls and snapshots spelled out)
+        through = [q for q in paths if q.exit == 'end']
+        common = {}
+        if through:
+            for n_ in set.intersection(*[set(q.env) for q in through]):
+                vals = {src_of(q.resolve(q.env[n_])) for q in through}
+                if len(vals) == 1:
+                    common[n_] = through[0].resolve(through[0].env[n_])
+        lp = body[ci]
+        k += 1
+        carried = names_in([lp])
+        looped |= carried
+        ienv = dict(common)
+        for n_ in carried:
+            ienv[n_] = ast.Name(id='_acc_' + n_, ctx=ast.Load())
+        stmts = list(lp.body)
+        if isinstance(lp, ast.While):
+            # the loop test guards the iteration: `if not test: break` first
+            stmts = [ast.If(test=ast.UnaryOp(op=ast.Not(), operand=lp.test), body=[ast.Break()], orelse=[])] + stmts
+        else:
+            for t in ast.walk(lp.target):
+                if isinstance(t, ast.Name):
+                    ienv[t.id] = ast.Name(id='_elem_' + t.id, ctx=ast.Load())
+        ipaths = sympath.feasible(sympath.block_summaries(project, func, stmts, env=ienv, ncall0=100 * k + 50))
+        out.append(('iter%d' % k, _cases_of_paths(ipaths), sorted(carried)))
+        env = dict(common)
+        for n_ in looped:
+            env[n_] = ast.Name(id='_fin_' + n_, ctx=ast.Load())
+        start = ci + 1
+    return out
+
+
+def table_rows(project, func, **kw):
+    _CTX.append((project, func))
+    try:
+        return _table_rows(project, func, **kw)
+    finally:
+        _CTX.pop()
+
+
+def _table_rows(project, func, **kw):
+    """[(label, [(conds, outcome)])]: the segmented decision table of a function.  The values the loop-carried locals have at
+    the end of a segment path are appended to its outcome (only for locals that a later segment / iteration actually reads);
+    local names are replaced by v0, v1, .. in the order of their first assignment, so renaming locals changes nothing."""
+    import re as _re
+    segs = segments(project, func, **kw)
+    # which symbolic locals are ever read?
+    text = []
+    for label, cs, names in segs:
+        for c in cs:
+            text.append(' '.join(list(c.conds) + [c.outcome()]))
+    blob = ' '.join(text)
+    used = set(_re.findall(r'_(?:acc|fin|elem)_(\w+)', blob))
+    # the tails may themselves read symbolic locals
+    changed = True
+    tails = {}
+    while changed:
+        changed = False
+        for label, cs, names in segs:
+            for c in cs:
+                t = _env_suffix(c, [n for n in names if n in used])
+                tails[(label, id(c))] = t
+                more = set(_re.findall(r'_(?:acc|fin|elem)_(\w+)', t)) - used
+                if more:
+                    used |= more
+                    changed = True
+    order = []
+    from . import norm
+    node = norm.nf(project, func, select=kw.get('select')) if kw.get('select') is not None else norm.nf(project, func, inline=kw.get('inline', True))
+    for n in ast.walk(node):
+        pass
+    stores = sorted(((n.lineno, n.col_offset, n.id) for n in ast.walk(node) if isinstance(n, ast.Name) and isinstance(n.ctx, ast.Store) and hasattr(n, 'lineno')))
+    for _, _, nm in stores:
+        if nm not in order:
+            order.append(nm)
+    # the tails may themselves read symbolic locals
+    changed = True
+    tails = {}
+    while changed:
+        changed = False
+        for label, cs, names in segs:
+            for c in cs:
+                t = _env_suffix(c, [n for n in names if n in used], order)
+                tails[(label, id(c))] = t
+                more = set(_re.findall(r'_(?:acc|fin|elem)_(\\w+)', t)) - used
+                if more:
+                    used |= more
+                    changed = True
+    # canonical names only for the locals that are actually loop-carried and read: numbering is not disturbed by other locals
+    order = [nm for nm in order if nm in used]
+    ren = {nm: 'v%d' % i for i, nm in enumerate(order)}
+
+    def alpha(t):
+        t = _re.sub(r'_(acc|fin|elem)_(\w+)', lambda m: '_%s_%s' % (m.group(1), ren.get(m.group(2), m.group(2))), t)
+        t = _re.sub(r'(^|; |\|\| )(\w+) :=', lambda m: '%s%s :=' % (m.group(1), ren.get(m.group(2), m.group(2))), t)
+        t = _re.sub(r'_h\d+_(\w+)', lambda m: '_h_%s' % ren.get(m.group(1), m.group(1)), t)
+        return t
+    rows = []
+    for label, cs, names in segs:
+        r = []
+        for c in cs:
+            tail = tails.get((label, id(c)), '') if c.exit in ('end', 'continue', 'break') else ''
+            o = c.outcome() if c.exit not in ('continue', 'break') else ' ; '.join(list(_sorted_stores(c.effects)) + [c.exit])
+            conds = {alpha(k): v for k, v in c.conds.items()}
+            r.append((conds, alpha(o + (' || ' + tail if tail else ''))))
+        rows.append((label, r))
+    return rows
+
+
+def check_rows(have, want):
+    """compare two row lists of one segment -> ('ok', n) | ('differs', [(want conds, want outcome, have conds, have outcome)]) | ('unknown', why)"""
+    vocab = set()
+    for conds, _ in want:
+        vocab |= set(conds)
+    hv = set()
+    for conds, _ in have:
+        hv |= set(conds)
+    differs = []
+    covered = set()
+    for wc, wo in want:
+        for i, (hc, ho) in enumerate(have):
+            if all(hc.get(k, v) == v for k, v in wc.items()) and all(wc.get(k, v) == v for k, v in hc.items() if k in vocab):
+                if not set(hc) <= vocab and not all(k in hc for k in wc):
+                    continue
+                covered.add(i)
+                if ho != wo and all(k in hc for k in wc):
+                    differs.append((wc, wo, hc, ho))
+    if hv - vocab:
+        return 'unknown', 'tests outside the reviewed vocabulary: %s' % sorted(hv - vocab)[:4]
+    if differs:
+        return 'differs', differs
+    if len(covered) != len(have):
+        return 'unknown', 'paths outside the reviewed cases'
+    # every reviewed row must be realised
+    for wc, wo in want:
+        if not any(all(hc.get(k, v) == v for k, v in wc.items()) and ho == wo for hc, ho in have):
+            return 'unknown', 'reviewed case not found: %s -> %s' % (wc, wo)
+    return 'ok', len(have)
